@@ -267,7 +267,7 @@ def default_compare(inp, impl, model):
         return f"model error {model['err']} impl gave {canon(impl)[:200]}"
     mo = model.get("out", {})
     for k, v in impl.items():
-        if k.startswith("_"):
+        if k.startswith("_") or v is None:
             continue
         if k not in mo:
             return f"model output lacks key {k}"
